@@ -115,7 +115,8 @@ def generate(rng, tier):
             cases.append("lt %s %s" % (w(a), w(b_)))
             cases.append("le %s %s" % (w(a), w(b_)))
     npairs = 2500 if not thorough else 100000
-    alpha2 = [0, 1, 48, 57, 97, 98, 0xFFFD, MAXC - 1, MAXC]
+    # incl. the UTF-16 surrogate range and plane boundaries: integers that are SMT characters but not Rust chars
+    alpha2 = [0, 1, 48, 57, 97, 98, 0x7F, 0x80, 0xD7FF, 0xD800, 0xDBFF, 0xDC00, 0xDFFF, 0xE000, 0xFFFD, 0xFFFF, 0x10000, MAXC - 1, MAXC]
     for _ in range(npairs):
         p = [rng.choice(alpha2) for _ in range(rng.choice([0, 1, 2, 3, 5, 8, 16, 40]))]
         r = rng.random()
